@@ -32,8 +32,8 @@ variable (f : Rat → Rat) (a b eps S fa fb fc : Rat)
 def mid : Rat := (a + b) / 2
 def dL : Rat := (a + (a + b) / 2) / 2
 def eR : Rat := (b + (a + b) / 2) / 2
-def sLeft : Rat := ((b - a) / 12) * (fa + 4 * f ((a + (a + b) / 2) / 2) + fc)
-def sRight : Rat := ((b - a) / 12) * (fc + 4 * f ((b + (a + b) / 2) / 2) + fb)
+def sLeft : Rat := ((b - a) / K.sLeftDiv) * (fa + K.sLeftMidW * f ((a + (a + b) / 2) / 2) + fc)
+def sRight : Rat := ((b - a) / K.sRightDiv) * (fc + K.sRightMidW * f ((b + (a + b) / 2) / 2) + fb)
 def s2 : Rat := sLeft f a b fa fc + sRight f a b fb fc
 
 def mkPanel (bottom : Nat) (leaf : Bool) : Panel :=
@@ -41,23 +41,23 @@ def mkPanel (bottom : Nat) (leaf : Bool) : Panel :=
 
 theorem adaptive_zero :
     adaptive f a b eps S fa fb fc 0 =
-      { val := s2 f a b fa fb fc + (s2 f a b fa fb fc - S) / 15, evals := [dL a b, eR a b],
-        warn := decide (Lp.rabs (s2 f a b fa fb fc - S) > 15 * eps),
+      { val := s2 f a b fa fb fc + (s2 f a b fa fb fc - S) / K.richardson, evals := [dL a b, eR a b],
+        warn := decide (Lp.rabs (s2 f a b fa fb fc - S) > K.warnFactor * eps),
         panels := [mkPanel f a b eps S fa fb fc 0 true] } := by
   rfl
 
-theorem adaptive_succ_accept (n : Nat) (h : Lp.rabs (s2 f a b fa fb fc - S) ≤ 15 * eps) :
+theorem adaptive_succ_accept (n : Nat) (h : Lp.rabs (s2 f a b fa fb fc - S) ≤ K.accFactor * eps) :
     adaptive f a b eps S fa fb fc (n + 1) =
-      { val := s2 f a b fa fb fc + (s2 f a b fa fb fc - S) / 15, evals := [dL a b, eR a b],
+      { val := s2 f a b fa fb fc + (s2 f a b fa fb fc - S) / K.richardson, evals := [dL a b, eR a b],
         warn := false, panels := [mkPanel f a b eps S fa fb fc (n + 1) true] } := by
   unfold s2 sLeft sRight at h
   rw [adaptive]; simp only []
   rw [if_pos h]; rfl
 
-theorem adaptive_succ_reject (n : Nat) (h : ¬ Lp.rabs (s2 f a b fa fb fc - S) ≤ 15 * eps) :
+theorem adaptive_succ_reject (n : Nat) (h : ¬ Lp.rabs (s2 f a b fa fb fc - S) ≤ K.accFactor * eps) :
     adaptive f a b eps S fa fb fc (n + 1) =
-      let L := adaptive f a (mid a b) (eps / 2) (sLeft f a b fa fc) fa fc (f (dL a b)) n
-      let R := adaptive f (mid a b) b (eps / 2) (sRight f a b fb fc) fc fb (f (eR a b)) n
+      let L := adaptive f a (mid a b) (eps / K.epsDivL) (sLeft f a b fa fc) fa fc (f (dL a b)) n
+      let R := adaptive f (mid a b) b (eps / K.epsDivR) (sRight f a b fb fc) fc fb (f (eR a b)) n
       { val := L.val + R.val, evals := dL a b :: eR a b :: (L.evals ++ R.evals), warn := L.warn || R.warn,
         panels := mkPanel f a b eps S fa fb fc (n + 1) false :: (L.panels ++ R.panels) } := by
   unfold s2 sLeft sRight at h
